@@ -97,7 +97,7 @@ def extras(r, k):
 
 def mix_cfg(r):
     x = r.random()
-    kw = dict(optimize=r.random() < 0.5, lm=r.random() < 0.4, path=r.choice(["", "in.pory", "dir\\sub\\f.pory", "a b.pory", "a%20b.pory", "%d%s.pory"]),
+    kw = dict(optimize=r.random() < 0.5, lm=r.random() < 0.4, path=r.choice(["", "in.pory", "dir\\sub\\f.pory", "a b.pory", "a%20b.pory", "%d%s.pory", "Script1_2.pory", "Script1_1 Script2_3 Script1_3.pory"]),
               switches=r.choice([{}, {"V": "A", "GAME": "RUBY", "W": "1"}, {"V": "B", "GAME": "RUBY", "W": "A"}, {"V": "ZZ", "W": "1", "GAME": "B"},
                                  {"V": "A", "GAME": "A", "W": "B"}, {"V": "A"}, {"V": "", "GAME": "RUBY", "W": "1"}, {"V": "A", "W": "", "GAME": ""}, {"V": "A=B", "GAME": "RUBY=EU", "W": "="}, {"V": "A B", "W": "1"}]), lint=r.random() < 0.1)
     if x < 0.3:
@@ -106,7 +106,7 @@ def mix_cfg(r):
         fonts = {"F1": dict(FMT_FONT), "F2": {"maxLineLength": 90, "numLines": 3, "cursorOverlapWidth": 0, "widths": {"default": 4, "a": 7, " ": 2, "{PLAYER}": 30}},
                  "1_latin_rse": {"maxLineLength": 208, "numLines": 2, "cursorOverlapWidth": 10, "widths": {"default": 6, " ": 3, "a": 6, "b": 6}},
                  "1_latin_frlg": {"maxLineLength": 0, "numLines": 0, "cursorOverlapWidth": 0, "widths": {"default": 8, "{PLAYER}": 0, "$": 0}}}
-        c = base_cfg(fontdefault=r.choice(["F1", "F1", "F2", ""]), fonts=fonts, deffont=r.choice(["", "", "F2"]), maxlen=r.choice([0, 0, 70]), **kw)
+        c = base_cfg(fontdefault=r.choice(["F1", "F1", "F2", "", "NOPE"]), fonts=fonts, deffont=r.choice(["", "", "F2"]), maxlen=r.choice([0, 0, 70]), **kw)
     c.autovars = dict(AUTOVARS, getpricereduction=("VAR_RESULT", None), checkmonobedience=("VAR_RESULT", None), both=("VAR_RESULT", 0))
     if r.random() < 0.2: c.autovars["special"] = ("VAR_SPECIAL", None)
     if r.random() < 0.1: c.autovars["specialvar"] = ("", r.choice([0, 1, 5, -1]))
@@ -213,6 +213,7 @@ def boundary_program(r, k):
         out.append("mart %s_early { ITEM_A %s ITEM_B }" % (p, k1))
         out.append("script %s_early { setvar(%s, %s) if (flag(%s)) { a } }" % (p, k1, k2, k3))
         out.append("const %s = %s\nconst %s = %s\nconst %s = %s %s" % (k1, v1, k2, v2, k3, k1, r.choice(["", "+ 1", k2])))
+        out.append("script %s_av { if (specialvar(%s, GetX) == %s) { q } switch (specialvar(%s, 7)) { case %s: s } }" % (p, k1, k2, k3, k1))
         out.append("script %s {\n  cmd(%s, %s + 1, (%s))\n  if (flag(%s) && !defeated(TRAINER_BASE + %s) || var(VAR_BASE + %s) >= %s + 1) { a }\n"
                    "  if (var(%s) == value(%s)) { b }\n  while (checkitem(%s, %s) == %s) { c }\n  switch (var(%s)) { case %s: d case %s + 1: e }\n  switch (random(%s)) { case 0: f }\n"
                    "  %s: g goto(%s)\n  applymovement(%s, moves(walk_up * 2 %s))\n  msgbox(\"%s\")\n}" % (p, k1, k2, k3, k1, k2, k3, k1, k2, k3, k1, k2, k3, k1, k2, k3, k1, p + "_lab", p + "_lab", k1, k2 if k2 == "walk_up" else "face_left", k1))
